@@ -101,6 +101,25 @@ Theorem C05_priority_duplicate_rejected : forall (A : Type) (l : list (str * nat
   select_components l = RErr ErrMsg.
 Proof. exact @priority_duplicate_rejected. Qed.
 
+(* which definition a call site runs: the priority-selected table entry whenever the table has
+   the name — whatever template the call stands in, also one that itself holds a lower-priority
+   definition of that name; a template-local definition is used only when the table lacks the
+   name (one-off templates) *)
+Theorem C05_call_site_lookup_is_table_entry : forall (A : Type) (t : ctable A) local n a p,
+  ct_get t n = Some (a, p) -> lookup_component t local n = ROk a.
+Proof. exact @lookup_component_table. Qed.
+
+Theorem C05_call_site_lookup_falls_back_to_local : forall (A : Type) (t : ctable A) local n,
+  ct_get t n = None ->
+  lookup_component t local n = match local_get local n with Some a => ROk a | None => RErr ErrPanic end.
+Proof. exact @lookup_component_fallback. Qed.
+
+Theorem C05_call_site_runs_best_priority : forall (A : Type) (l : list (str * nat * A)) (t : ctable A) local n p0 a0,
+  select_components l = ROk t -> In (n, p0, a0) l ->
+  exists a p, lookup_component t local n = ROk a /\ In (n, p, a) l /\
+              (forall p' a', In (n, p', a') l -> (p <= p')%nat) /\ (forall a', In (n, p, a') l -> a' = a).
+Proof. exact @call_site_runs_best_priority. Qed.
+
 (* "equal priority => rejection, whatever the order" is FALSE of the code as it is for
    duplicates that are shadowed by a better definition: whether they are rejected depends on
    the visiting order (sorted template names). The kept definition is unaffected. *)
